@@ -24,9 +24,6 @@ macro "pc_contra" : tactic => `(tactic| first
   | (rcases afterIdent_pc_cases _ _ (by first | exact hf.2 | rfl) with h' | h' | h' | ⟨l, h'⟩ <;> rw [h'] at hp <;> simp at hp; done)
   | (rcases toFlush_pc_cases _ _ with h' | h' | h' <;> rw [h'] at hp <;> simp at hp; done))
 
-/-- an attempt on behalf of a communicate call is under way: the rate test has been passed -/
-def flight (k : Caller) : Bool := (k.pc == .rcheck || k.pc == .connecting) && k.kind != .poll
-
 set_option maxHeartbeats 4000000 in
 theorem step_basic (s s' : State) (t c : Nat) (e : Ev) (h : stepCaller s t c e = some s') :
     s'.cfg = s.cfg ∧ s'.clock = s.clock ∧
@@ -40,15 +37,18 @@ theorem step_basic (s s' : State) (t c : Nat) (e : Ev) (h : stepCaller s t c e =
     | skip)
 
 
-theorem step_chk (s s' : State) (t c x : Nat) (v : Bool) (h : stepCaller s t c (.chk x v) = some s')
-    (hf : identFree (s.callers c)) :
-    (s.callers c).pc = .check ∧ (v = false → (s'.callers c).pc = .chkNow) := by
+def chkNowPc (p : Pc) : Bool := match p with | .chkNow | .idChkNow => true | _ => false
+def flightPc (p : Pc) : Bool := match p with | .rcheck | .connecting => true | _ => false
+
+/-- a `chk` is the first event of check_connection — of a request of the call, or of an identification request -/
+theorem step_chk (s s' : State) (t c x : Nat) (v : Bool) (h : stepCaller s t c (.chk x v) = some s') :
+    ((s.callers c).pc = .check ∨ (s.callers c).pc = .idChk) ∧ (v = false → chkNowPc (s'.callers c).pc = true) := by
   cases hpc : (s.callers c).pc <;> simp only [stepCaller, hpc] at h <;> try (simp at h)
-  all_goals (try (exfalso; simp [identFree, identPc, hpc] at hf; done))
-  obtain ⟨hv, rfl⟩ := h
-  refine ⟨rfl, fun hf => ?_⟩
-  subst hv
-  simp [← hf]
+  all_goals (
+    obtain ⟨hv, rfl⟩ := h
+    refine ⟨by simp, fun hf => ?_⟩
+    subst hv
+    simp [hf, chkNowPc])
 
 theorem step_connect (s s' : State) (t c x : Nat) (ok od : Bool) (h : stepCaller s t c (.connect x ok od) = some s') :
     (s.callers c).pc = .connecting ∧ t ≤ s.lastAttempt + s.cfg.slack ∧ (od = true → (s.callers c).kind ≠ .poll) := by
@@ -58,49 +58,99 @@ theorem step_connect (s s' : State) (t c x : Nat) (ok od : Bool) (h : stepCaller
   subst hod
   simpa using h1
 
-set_option maxHeartbeats 4000000 in
+theorem misc_chkNowPc (s : State) (cfg : Cfg) (k : Caller) :
+    chkNowPc (failTo k).pc = false ∧ chkNowPc (nextReq k).pc = false ∧ chkNowPc (afterConnected s k).pc = false ∧
+    chkNowPc (toFlush s k).pc = false ∧ chkNowPc (rcFail k).pc = false ∧ chkNowPc (afterIdent s k).pc = false ∧
+    chkNowPc (startIdent s k).pc = false ∧ chkNowPc (idNext cfg k).pc = false ∧ chkNowPc (toIdFlush s k).pc = false ∧
+    chkNowPc (toIdEndFail k).pc = false := by
+  have h1 : chkNowPc (failTo k).pc = false := by unfold failTo; simp only; split <;> rfl
+  have h3 : chkNowPc (afterConnected s k).pc = false := by
+    unfold afterConnected; split <;> split <;> (try split) <;> (try rfl) <;> exact h1
+  have h6 : chkNowPc (afterIdent s k).pc = false := by unfold afterIdent; split <;> (try split) <;> (try rfl) <;> exact h3
+  refine ⟨h1, ?_, h3, ?_, ?_, h6, ?_, ?_, ?_, rfl⟩
+  · unfold nextReq; split <;> (try split) <;> rfl
+  · unfold toFlush; split <;> (try rfl); exact h1
+  · unfold rcFail; split <;> (try rfl); exact h1
+  · unfold startIdent; split <;> (try rfl); exact h6
+  · unfold idNext; split <;> (try split) <;> (try split) <;> rfl
+  · unfold toIdFlush; split <;> rfl
+
+theorem misc_flightPc (s : State) (cfg : Cfg) (k : Caller) :
+    flightPc (failTo k).pc = false ∧ flightPc (nextReq k).pc = false ∧ flightPc (afterConnected s k).pc = false ∧
+    flightPc (toFlush s k).pc = false ∧ flightPc (rcFail k).pc = false ∧ flightPc (afterIdent s k).pc = false ∧
+    flightPc (startIdent s k).pc = false ∧ flightPc (idNext cfg k).pc = false ∧ flightPc (toIdFlush s k).pc = false ∧
+    flightPc (toIdEndFail k).pc = false := by
+  have h1 : flightPc (failTo k).pc = false := by unfold failTo; simp only; split <;> rfl
+  have h3 : flightPc (afterConnected s k).pc = false := by
+    unfold afterConnected; split <;> split <;> (try split) <;> (try rfl) <;> exact h1
+  have h6 : flightPc (afterIdent s k).pc = false := by unfold afterIdent; split <;> (try split) <;> (try rfl) <;> exact h3
+  refine ⟨h1, ?_, h3, ?_, ?_, h6, ?_, ?_, ?_, rfl⟩
+  · unfold nextReq; split <;> (try split) <;> rfl
+  · unfold toFlush; split <;> (try rfl); exact h1
+  · unfold rcFail; split <;> (try rfl); exact h1
+  · unfold startIdent; split <;> (try rfl); exact h6
+  · unfold idNext; split <;> (try split) <;> (try split) <;> rfl
+  · unfold toIdFlush; split <;> rfl
+
+set_option hygiene false in
+/-- `hp : P (helper …).pc = true` with P false on every helper's result (`misc` : the conjunction of these facts) -/
+macro "helper_contra'" m:ident : tactic => `(tactic| first
+  | (rw [($m s s.cfg _).1] at hp; simp at hp; done)
+  | (rw [($m s s.cfg _).2.1] at hp; simp at hp; done)
+  | (rw [($m _ s.cfg _).2.2.1] at hp; simp at hp; done)
+  | (rw [($m _ s.cfg _).2.2.2.1] at hp; simp at hp; done)
+  | (rw [($m s s.cfg _).2.2.2.2.1] at hp; simp at hp; done)
+  | (rw [($m _ s.cfg _).2.2.2.2.2.1] at hp; simp at hp; done)
+  | (rw [($m _ s.cfg _).2.2.2.2.2.2.1] at hp; simp at hp; done)
+  | (rw [($m s _ _).2.2.2.2.2.2.2.1] at hp; simp at hp; done)
+  | (rw [($m _ s.cfg _).2.2.2.2.2.2.2.2.1] at hp; simp at hp; done)
+  | (rw [($m s s.cfg _).2.2.2.2.2.2.2.2.2] at hp; simp at hp; done))
+
+set_option maxHeartbeats 16000000 in
+/-- the rate test (of a request of the call or of an identification request) is reached by a `chk … false` only -/
 theorem step_into_chkNow (s s' : State) (t c : Nat) (e : Ev) (h : stepCaller s t c e = some s')
-    (hid : s.cfg.ident = []) (hf : identFree (s.callers c))
-    (hp : (s'.callers c).pc = .chkNow) : (s.callers c).pc = .chkNow ∨ ∃ x, e = .chk x false := by
-  step_arms_ni
-  all_goals (try (simp only [setC_same] at hp))
+    (hp : chkNowPc (s'.callers c).pc = true) : chkNowPc (s.callers c).pc = true ∨ ∃ x, e = .chk x false := by
+  step_arms
   all_goals (first
-    | (left; first | exact hpc | rfl)
-    | (exfalso; first
-        | (rw [hpc] at hp; simp at hp; done)
-        | (simp at hp; done)
-        | pc_contra
-        | (split at hp <;> first | (simp at hp; done) | pc_contra))
-    | (right; rename_i v _; cases v <;> simp_all)
+    | (left; simp [hpc, chkNowPc]; done)
+    | (exfalso; simp only [setC_same] at hp; first
+        | (rw [hpc] at hp; simp [chkNowPc] at hp; done)
+        | (simp [chkNowPc] at hp; done)
+        | helper_contra' misc_chkNowPc
+        | (split at hp <;> first | (simp [chkNowPc] at hp; done) | helper_contra' misc_chkNowPc))
+    | (right; rename_i v _; cases v <;> simp_all [chkNowPc]; done)
     | skip)
 
+/-- an attempt on behalf of a communicate call is under way: the rate test has been passed -/
+def flight (k : Caller) : Bool := flightPc k.pc && k.kind != .poll
 
-theorem flight_pc {k : Caller} (h : flight k = true) : (k.pc = .rcheck ∨ k.pc = .connecting) ∧ k.kind ≠ .poll := by
+theorem flight_pc {k : Caller} (h : flight k = true) : flightPc k.pc = true ∧ k.kind ≠ .poll := by
   unfold flight at h
-  simp only [Bool.and_eq_true, Bool.or_eq_true, beq_iff_eq, bne_iff_ne, ne_eq] at h
+  simp only [Bool.and_eq_true, bne_iff_ne, ne_eq] at h
   exact h
 
 theorem not_flight_of_pc {k : Caller} (h1 : k.pc ≠ .rcheck) (h2 : k.pc ≠ .connecting) : flight k = false := by
-  unfold flight; simp [h1, h2]
+  unfold flight
+  cases hp : k.pc <;> simp [flightPc] <;> simp_all
 
-set_option maxHeartbeats 8000000 in
+set_option maxHeartbeats 32000000 in
+/-- … and an attempt on behalf of a call is started by passing a rate test -/
 theorem step_into_flight (s s' : State) (t c : Nat) (e : Ev) (h : stepCaller s t c e = some s')
-    (hid : s.cfg.ident = []) (hf : identFree (s.callers c))
-    (hp : flight (s'.callers c) = true) :
+    (hp0 : flight (s'.callers c) = true) :
     flight (s.callers c) = true ∨
-      ((s.callers c).pc = .chkNow ∧ (∃ x, e = .now x t) ∧ s.lastAttempt + s.cfg.interval ≤ t) := by
-  step_arms_ni
-  all_goals (try (simp only [setC_same] at hp))
+      (chkNowPc (s.callers c).pc = true ∧ (∃ x, e = .now x t) ∧ s.lastAttempt + s.cfg.interval ≤ t) := by
+  obtain ⟨hp, hkind⟩ := flight_pc hp0
+  step_arms
   all_goals (first
-    | (left; simpa [flight, hpc] using hp)
-    | (right; exact ⟨rfl, ⟨_, by rw [hg]⟩, by rw [← hg]; assumption⟩)
-    | (exfalso; obtain ⟨hp, _⟩ := flight_pc hp; first
-        | (simp at hp; done)
-        | (rcases hp with hp | hp <;> pc_contra)
-        | (rcases hp with hp | hp <;> (split at hp <;> first | (simp at hp; done) | pc_contra)))
-    | (exfalso; have := (flight_pc hp).2; simp at this; done)
+    | (left; simp only [setC_same] at hkind; simp [flight, flightPc, hpc]; simpa using hkind)
+    | (right; exact ⟨by simp [hpc, chkNowPc], ⟨_, by rw [hg]⟩, by rw [← hg]; assumption⟩)
+    | (exfalso; simp only [setC_same] at hp; first
+        | (rw [hpc] at hp; simp [flightPc] at hp; done)
+        | (simp [flightPc] at hp; done)
+        | helper_contra' misc_flightPc
+        | (split at hp <;> first | (simp [flightPc] at hp; done) | helper_contra' misc_flightPc))
+    | (exfalso; simp only [setC_same] at hkind; simp at hkind; done)
     | skip)
-
 
 theorem timeAt_append_lt (log : Log) (e : TEv) (i : Nat) (h : i < log.length) : timeAt (log ++ [e]) i = timeAt log i := by
   simp [timeAt, List.getElem?_append_left h]
@@ -121,7 +171,7 @@ structure TInv (cfg : Cfg) (log : Log) (s : State) : Prop where
   t1 : s.lastAttempt ≤ s.clock
   t2 : ∀ i, i < log.length → connectAt log i ≠ none → timeAt log i ≤ s.lastAttempt + cfg.slack
   t3 : ∀ i, i < log.length → timeAt log i ≤ s.clock
-  a4 : ∀ c, (s.callers c).pc = .chkNow → ∃ p, p < log.length ∧ evAt log p = some (.chk c false) ∧
+  a4 : ∀ c, chkNowPc (s.callers c).pc = true → ∃ p, p < log.length ∧ evAt log p = some (.chk c false) ∧
         ∀ m, p < m → m < log.length → isChk c (evAt log m) = false
   a5 : ∀ c, flight (s.callers c) = true → ∃ p q, p < q ∧ q < log.length ∧ evAt log p = some (.chk c false) ∧
         (∀ m, p < m → m < log.length → isChk c (evAt log m) = false) ∧
@@ -137,10 +187,9 @@ theorem nochk_extend {log : Log} {e : TEv} {c p : Nat} (h : ∀ m, p < m → m <
   · have : m = log.length := by omega
     subst this; rw [evAt_append_eq]; exact he
 
-theorem tinv_step {cfg : Cfg} {log : Log} {s s' : State} (e : TEv) (hi0 : Inv log s) (hid : cfg.ident = [])
+theorem tinv_step {cfg : Cfg} {log : Log} {s s' : State} (e : TEv)
     (hi : TInv cfg log s) (h : step s e = some s') :
     TInv cfg (log ++ [e]) s' := by
-  have hid' : s.cfg.ident = [] := by rw [hi.cfg_eq]; exact hid
   have hclk : s.clock ≤ e.t := by
     unfold step at h; split at h
     · simp at h
@@ -233,15 +282,15 @@ theorem tinv_step {cfg : Cfg} {log : Log} {s s' : State} (e : TEv) (hi0 : Inv lo
     · rw [step_caller_form s e c hwc] at h
       split at h
       · simp at h
-      · rcases step_into_chkNow _ s' e.t c e.ev h hid' (hi0.ni hid' c) hp with hold | ⟨x, hx⟩
+      · rcases step_into_chkNow _ s' e.t c e.ev h hp with hold | ⟨x, hx⟩
         · obtain ⟨p, hpl, hpe, hno⟩ := hi.a4 c hold
           refine ⟨p, by omega, by rw [evAt_append_lt log e p hpl]; exact hpe, nochk_extend hno ?_⟩
           cases hev : e.ev <;> simp only [isChk] <;> try rfl
           rename_i y v
           rw [hev] at h
-          have := (step_chk _ s' e.t c y v h (hi0.ni hid' c)).1
+          have := (step_chk _ s' e.t c y v h).1
           simp only at hold this
-          rw [hold] at this; simp at this
+          rcases this with this | this <;> (rw [this] at hold; simp [chkNowPc] at hold)
         · have hxc : x = c := by rw [hx] at hwc; simpa [Ev.who] using hwc
           subst hxc
           refine ⟨log.length, by omega, by rw [evAt_append_eq, hx], ?_⟩
@@ -269,16 +318,16 @@ theorem tinv_step {cfg : Cfg} {log : Log} {s s' : State} (e : TEv) (hi0 : Inv lo
     · rw [step_caller_form s e c hwc] at h
       split at h
       · simp at h
-      · rcases step_into_flight _ s' e.t c e.ev h hid' (hi0.ni hid' c) hp with hold | ⟨hchk, ⟨x, hx⟩, hle⟩
+      · rcases step_into_flight _ s' e.t c e.ev h hp with hold | ⟨hchk, ⟨x, hx⟩, hle⟩
         · obtain ⟨p, q, hpq, hql, hpe, hno, hconn⟩ := hi.a5 c hold
           refine hext p q hpq hql hpe hno hconn ?_
           cases hev : e.ev <;> simp only [isChk] <;> try rfl
           rename_i y v
           rw [hev] at h
-          have := (step_chk _ s' e.t c y v h (hi0.ni hid' c)).1
+          have := (step_chk _ s' e.t c y v h).1
           have hfp := (flight_pc hold).1
           simp only at this hfp
-          rw [this] at hfp; simp at hfp
+          rcases this with this | this <;> (rw [this] at hfp; simp [flightPc] at hfp)
         · obtain ⟨p, hpl, hpe, hno⟩ := hi.a4 c hchk
           refine ⟨p, log.length, hpl, by omega, by rw [evAt_append_lt log e p hpl]; exact hpe, nochk_extend hno ?_, ?_⟩
           · rw [hx]; rfl
@@ -297,10 +346,10 @@ theorem tinv_init (cfg : Cfg) (cbs : List Nat) : TInv cfg [] { cfg := cfg, cbsRe
   refine ⟨rfl, Nat.le_refl _, ?_, ?_, ?_, ?_⟩
   · intro i h; simp at h
   · intro i h; simp at h
-  · intro c h; simp at h
-  · intro c h; simp [flight] at h
+  · intro c h; simp [chkNowPc] at h
+  · intro c h; simp [flight, flightPc] at h
 
-theorem tinv_exec_gen {cfg : Cfg} (hid : cfg.ident = []) : ∀ (evs pre : List TEv) (s0 s : State), Inv pre s0 → TInv cfg pre s0 →
+theorem tinv_exec_gen {cfg : Cfg} : ∀ (evs pre : List TEv) (s0 s : State), Inv pre s0 → TInv cfg pre s0 →
     exec s0 evs = some s → TInv cfg (pre ++ evs) s
   | [], pre, s0, s, _, hv, h => by simp [exec] at h; subst h; simpa using hv
   | e :: es, pre, s0, s, hi0, hv, h => by
@@ -309,11 +358,11 @@ theorem tinv_exec_gen {cfg : Cfg} (hid : cfg.ident = []) : ∀ (evs pre : List T
     | none => simp [hst] at h
     | some s1 =>
       simp only [hst] at h
-      have := tinv_exec_gen hid es (pre ++ [e]) s1 s (inv_step e hi0 hst) (tinv_step e hi0 hid hv hst) h
+      have := tinv_exec_gen es (pre ++ [e]) s1 s (inv_step e hi0 hst) (tinv_step e hv hst) h
       simpa using this
 
-theorem tinv_exec (cfg : Cfg) (cbs : List Nat) (evs : List TEv) (s : State) (hid : cfg.ident = [])
+theorem tinv_exec (cfg : Cfg) (cbs : List Nat) (evs : List TEv) (s : State)
     (h : exec { cfg := cfg, cbsReg := cbs } evs = some s) : TInv cfg evs s := by
-  simpa using tinv_exec_gen hid evs [] _ s (inv_init cfg cbs) (tinv_init cfg cbs) h
+  simpa using tinv_exec_gen evs [] _ s (inv_init cfg cbs) (tinv_init cfg cbs) h
 
 end Frappy.Comm
